@@ -93,6 +93,34 @@ Fixpoint walrus_names (e : expr) {struct e} : list ident :=
 
 Definition opt_list (o : option ident) : list ident := match o with Some x => [x] | None => [] end.
 
+(* NamespaceFunction.get_explicit_super: in a method, outside every lambda / comprehension of the source, a call `super()`
+   of the builtin is written out as super(__class__, <first positional parameter>): the loops of the method become
+   comprehensions, which have a frame of their own before Python 3.12.  Some fp: rewrite with that parameter. *)
+Definition explicit_super (n : nsp) (inn : bool) (f : expr) (args : list expr) (kws : list (option ident * expr))
+  : res (option ident) :=
+  match f, args, kws with
+  | Name fname, [], [] =>
+      if negb (String.eqb fname "super") then ret None
+      else match n_kind n with
+      | NFunction =>
+          if negb (n_is_method n) then ret None
+          else match n_params n with
+          | [] => ret None
+          | fp :: _ =>
+              if inn then ret None
+              else match lookup_sym (n_syms n) "super" with
+              | None => fail EKey
+              | Some s =>
+                  if negb (sy_global s) || sy_declglobal s then ret None
+                  else if existsb (fun y => String.eqb (sy_name y) "super") (lk_syms (last (n_chain n) (self_link n))) then ret None
+                  else ret (Some fp)
+              end
+          end
+      | _ => ret None
+      end
+  | _, _, _ => ret None
+  end.
+
 Section Transf.
   Variable n : nsp.
 
@@ -160,9 +188,18 @@ Section Transf.
     | Subscript v s => let! v' := transf bd inn v in let! s' := transf bd inn s in ret (Subscript v' s')
     | Slice a b c => let! a' := topt bd inn a in let! b' := topt bd inn b in let! c' := topt bd inn c in ret (Slice a' b' c')
     | Call f args kws =>
-        let! f' := transf bd inn f in let! args' := tl bd inn args in
-        let! kws' := rmap (fun kw => let! v := transf bd inn (snd kw) in ret (fst kw, v)) kws in
-        ret (Call f' args' kws')
+        let! sup := explicit_super n inn f args kws in
+        match sup with
+        | Some fp =>
+            let! f' := transf bd inn f in
+            let! c := get_load_name n bd inn "__class__" in
+            let! s := get_load_name n bd inn fp in
+            ret (Call f' [c; s] [])
+        | None =>
+            let! f' := transf bd inn f in let! args' := tl bd inn args in
+            let! kws' := rmap (fun kw => let! v := transf bd inn (snd kw) in ret (fst kw, v)) kws in
+            ret (Call f' args' kws')
+        end
     | Lambda po ar va ko kd kw de body =>
         (* fields in AST order: args (kw_defaults, then defaults) in the enclosing scope, then the body in its own *)
         let! kd' := rmap (topt bd inn) kd in
@@ -572,7 +609,7 @@ Section Stmts.
                 let! kwdefaults := rmap (fun d => match d with Some x => let! y := tr n x in ret (Some y) | None => ret None end)
                                         (a_kw_defaults args) in
                 let ret_used := uses_flag has_ret b in
-                let! b' := block (mkCtx fn [] ret_used) p 0 0 b in
+                let! b' := block (mkCtx (set_params fn (a_posonly args ++ a_args args)) [] ret_used) p 0 0 b in
                 let retv := retv_name (n_id fn) in
                 let body :=
                   [NamedExpr retv cnone]
